@@ -14,7 +14,7 @@ and breadth-first (the index the LCA structure works in), and converts between t
                  the range-minimum query
 """
 from . import mir
-from .base import inst, OK, VIOLATION, UNDECIDED, strip
+from .base import verdict_of, errtext, inst, OK, VIOLATION, UNDECIDED, strip
 from .facts import CheckerError
 from .mir import show
 
@@ -63,21 +63,21 @@ def run(prog):
                                any(show(cc) == "discr(arg1)" and v == "1" for cc, v, _, _ in fn.terms.facts_at(c.bb)))
     errs = []
     if node_calls is None or len(node_calls) != 3:
-        errs.append("the Node arm is not a straight sequence of three steps")
+        errs.append("?the Node arm is not a straight sequence of three steps")
     else:
         seq = [(c.callee.name, child(c.args[0]) if c.callee.name == "dfs_recurse" else "self") for c in node_calls]
         if seq != [("dfs_recurse", "1"), ("push_back", "self"), ("dfs_recurse", "2")]:
             errs.append("a node is walked as %s, expected left subtree, node, right subtree (the in-order index is what makes "
                         "`left descendant < node < right descendant` true)" % seq)
-    out.append(inst("BT", "%s:BT1:in-order" % fn.npath, VIOLATION if errs else OK, fn, None,
-                    "; ".join(errs) if errs else "left subtree, node, right subtree"))
+    out.append(inst("BT", "%s:BT1:in-order" % fn.npath, verdict_of(errs), fn, None,
+                    errtext(errs) if errs else "left subtree, node, right subtree"))
     # BT2
     fn = [f for f in prog.lib_fns if f.name == "next" and "BreadthFirstIter" in f.npath][0]
     pushes = ordered_calls(fn, lambda c: c.callee.name == "push_back")
     pops = [c for c in fn.terms.calls if c.callee.name in ("pop_front", "pop_back")]
     errs = []
     if pushes is None or len(pushes) != 2:
-        errs.append("expected two enqueues on the node arm")
+        errs.append("?expected two enqueues on the node arm")
     else:
         ks = []
         for c in pushes:
@@ -90,8 +90,8 @@ def run(prog):
             errs.append("children are enqueued in the order %s, expected left then right" % ks)
     if [c.callee.name for c in pops] != ["pop_front"]:
         errs.append("the queue is not consumed from the front")
-    out.append(inst("BT", "%s:BT2:level-order" % fn.npath, VIOLATION if errs else OK, fn, None,
-                    "; ".join(errs) if errs else "pop_front; enqueue left, then right"))
+    out.append(inst("BT", "%s:BT2:level-order" % fn.npath, verdict_of(errs), fn, None,
+                    errtext(errs) if errs else "pop_front; enqueue left, then right"))
     # BT3
     for name, it, lab in (("dfs_to_bfs_mapping", "inorder_dfs_iter", "bfs_labeling"), ("bfs_to_dfs_mapping", "bfs_iter", "dfs_labeling")):
         fn = find(name, "BTree")
@@ -120,13 +120,13 @@ def run(prog):
                          any(show(cc) == "discr(arg1)" and v == "1" for cc, v, _, _ in fn.terms.facts_at(c.bb)))
     errs = []
     if seqc is None or len(seqc) != 5:
-        errs.append("the Node arm is not a straight sequence of five steps")
+        errs.append("?the Node arm is not a straight sequence of five steps")
     else:
         seq = [(c.callee.name, child(c.args[0]) if c.callee.name == "build_euler_vec" else "idx") for c in seqc]
         if seq != [("push", "idx"), ("build_euler_vec", "1"), ("push", "idx"), ("build_euler_vec", "2"), ("push", "idx")]:
             errs.append("the tour of a node is %s, expected node, left, node, right, node" % seq)
-    out.append(inst("BT", "%s:BT4:euler-tour" % fn.npath, VIOLATION if errs else OK, fn, None,
-                    "; ".join(errs) if errs else "node, left tour, node, right tour, node"))
+    out.append(inst("BT", "%s:BT4:euler-tour" % fn.npath, verdict_of(errs), fn, None,
+                    errtext(errs) if errs else "node, left tour, node, right tour, node"))
     # BT5
     fn = find("lca", "LeastCommonAncestor")
     r = strip(fn.terms.ret)
@@ -178,7 +178,7 @@ def run(prog):
         errs.append("the Euler tour is not built over the breadth-first labelling")
     st = [x for x in te.stores if "Some{" in show(x[2])]
     if len(st) != 1:
-        errs.append("expected one store into the first-occurrence table, found %d" % len(st))
+        errs.append("?expected one store into the first-occurrence table, found %d" % len(st))
     else:
         tgt, val = strip(st[0][1]), strip(st[0][2])
         if not (show(tgt).endswith(".0.1)") and show(val).endswith(".0.0}")):
@@ -186,6 +186,6 @@ def run(prog):
     b = [c for c in te.calls if c.callee.name == "build"]
     if len(b) != 1 or "Min" not in show(b[0].args[1]):
         errs.append("the range structure is not a minimum tree over the tour")
-    out.append(inst("BT", "%s:BT6:occurrence" % fn.npath, VIOLATION if errs else OK, fn, None,
-                    "; ".join(errs) if errs else "index_map[v] = a position of v in the Euler tour of the BFS labelling (any occurrence serves); range-minimum tree over the tour"))
+    out.append(inst("BT", "%s:BT6:occurrence" % fn.npath, verdict_of(errs), fn, None,
+                    errtext(errs) if errs else "index_map[v] = a position of v in the Euler tour of the BFS labelling (any occurrence serves); range-minimum tree over the tour"))
     return out
